@@ -190,6 +190,23 @@ class Writer:
                 f"segment-length must be at-least data-length " f"(in {segment_addresses_str})."
             )
 
+        if segment_start < 0 or segment_start + segment_length > (1 << 64):
+            raise FlipJumpWriteFjmException(
+                f"segment addresses must fit in 64-bit word-addresses (in {segment_addresses_str})."
+            )
+
+        if data_length < 0 or data_length % 2 == 1:
+            raise FlipJumpWriteFjmException(
+                f"data-length must be a non-negative even number - an integer number of ops "
+                f"(got {data_length} in {segment_addresses_str})."
+            )
+
+        if data_start < 0 or data_start + data_length > len(self.data):
+            raise FlipJumpWriteFjmException(
+                f"the data range [{data_start}, {data_start + data_length}) is not inside the added data "
+                f"(of length {len(self.data)}, in {segment_addresses_str})."
+            )
+
         if segment_start % 2 == 1 or segment_length % 2 == 1:
             raise FlipJumpWriteFjmException(
                 f"segment-start and segment-length must be 2*w (2 * memory-width) aligned "
